@@ -550,6 +550,14 @@ class Lowerer:
             self.note('builtin record model std::vector<T> -> {T* _data; size_t _size; size_t _cap} (trusted)')
         else:
             n = self.idx.records.get(key)
+            if n is None and key.startswith('(lambda at '):
+                lam = self.lambda_by_type(key)
+                if lam is not None:
+                    del self.rec_defs[t.name]
+                    self.request_closure(lam)
+                    if self.rec_defs.get(t.name):
+                        return
+                    raise Unsupported('closure type %r could not be lowered' % key)
             if n is None:
                 # try with manifold:: prefix variants
                 for k2, v in self.idx.records.items():
@@ -590,6 +598,9 @@ class Lowerer:
         if not any(not l.strip().startswith('/*') for l in lines):
             lines.append('  char _empty;')
         self.rec_fields[t.name] = [f for _, f in fields]
+        if not hasattr(self, 'rec_ref_fields'):
+            self.rec_ref_fields = {}
+        self.rec_ref_fields[t.name] = [ft.kind == 'ref' for ft, _ in fields]
         self.rec_defs[t.name] = 'struct %s {\n%s\n};' % (t.name, '\n'.join(lines))
         self.rec_order.append(t.name)
 
@@ -735,6 +746,22 @@ class Lowerer:
         except Unsupported:
             if hasattr(f, 'ret_hint'):
                 return f.ret_hint
+            if f.kind == 'lambda':
+                # deduced return type of a lambda that no lowered call site has typed yet: from its return statements
+                rets = []
+                def walk(n):
+                    if n.get('kind') == 'ReturnStmt':
+                        rets.append(n)
+                    for x in n.get('inner', []):
+                        if isinstance(x, dict) and x.get('kind') != 'LambdaExpr':
+                            walk(x)
+                body = self.body_of(f.node)
+                if body is not None:
+                    walk(body)
+                vals = [r['inner'][0] for r in rets if r.get('inner')]
+                if not vals:
+                    return Ty('b', name='void')
+                return self.ty(vals[0]['type']).noref()
             raise
 
     def is_static_method(self, n):
@@ -1599,8 +1626,19 @@ class Lowerer:
 
     def brace_init_rec(self, e):
         parts = []
-        for c in e.get('inner', []):
+        refs = []
+        try:
+            et = self.ty(e['type'])
+            if et.kind == 'rec':
+                self.need_record(et)
+                refs = getattr(self, 'rec_ref_fields', {}).get(et.name, [])
+        except Unsupported:
+            pass
+        for k, c in enumerate(e.get('inner', [])):
             s = self.strip(c)
+            if k < len(refs) and refs[k]:
+                parts.append(self.addr(c))      # aggregate member of reference type: bound to the object, lowered to its address
+                continue
             if s.get('kind') == 'InitListExpr':
                 parts.append(self.brace_init_rec(s))
             elif s.get('kind') == 'CXXConstructExpr' and len(s.get('inner', [])) == 1:
@@ -1728,6 +1766,8 @@ class Lowerer:
             base = base['inner'][0]
         if base.get('kind') == 'DeclRefExpr' and base['referencedDecl'].get('name') in tab:
             return tab[base['referencedDecl']['name']]
+        if base.get('kind') == 'MemberExpr' and base.get('name') in tab:
+            return tab[base['name']]      # container that is a member of a local object (out.leafToOrig[i])
         return None
 
     def e_BinaryOperator(self, e):
@@ -1841,7 +1881,81 @@ class Lowerer:
         if c.get('kind') != 'DeclRefExpr':
             raise Unsupported('indirect call at %s' % where(e))
         r = c['referencedDecl']
+        if r.get('kind') == 'CXXMethodDecl' and r.get('name') == 'operator()' and args:
+            # closure call inside a template instantiation: printed as CallExpr(operator(), object, args...)
+            return self.call_function(e, r, self.addr(args[0]), args[1:])
         return self.call_function(e, r, None, args)
+
+    def lambda_by_type(self, key):
+        """LambdaExpr whose closure type prints as `key` = '(lambda at file:line:col)'"""
+        if not hasattr(self, '_lam_by_type'):
+            self._lam_by_type = {}
+            def dependent(n):
+                # the lambda inside an uninstantiated template pattern: its body still has unresolved calls
+                for c in n['inner'][0].get('inner', []):
+                    if c.get('name') == 'operator()':
+                        if c.get('id') in self.idx.pattern:
+                            return True
+                        def unresolved(x):
+                            if x.get('kind') in ('UnresolvedLookupExpr', 'CXXDependentScopeMemberExpr', 'UnresolvedMemberExpr', 'DependentScopeDeclRefExpr'):
+                                return True
+                            if x.get('kind') == 'CallExpr' and x.get('type', {}).get('qualType') == '<dependent type>':
+                                return True
+                            return any(unresolved(y) for y in x.get('inner', []) if isinstance(y, dict))
+                        return unresolved(c)
+                return False
+            def walk(n):
+                if n.get('kind') == 'LambdaExpr' and n.get('inner'):
+                    k = n.get('type', {}).get('qualType')
+                    if k not in self._lam_by_type or dependent(self._lam_by_type[k]):
+                        self._lam_by_type[k] = n
+                for x in n.get('inner', []):
+                    if isinstance(x, dict):
+                        walk(x)
+            walk(self.idx.root)
+        return self._lam_by_type.get(key)
+
+    def request_closure(self, lam):
+        """lower a lambda that was not named as a target (local closure objects, callbacks passed on)"""
+        import lower_ext
+        rec = lam['inner'][0]
+        for c in rec.get('inner', []):
+            if c.get('name') == 'operator()' and c.get('id') in self.fns:
+                return self.fns[c['id']]
+        for key in self.stubs:
+            if key.startswith('closure:') and re.search(key[len('closure:'):], where(lam)):
+                # a callback the unit replaces by a stub: its closure is an opaque object, its body is not lowered
+                tn = mangle(lam.get('type', {}).get('qualType', ''))
+                if not self.rec_defs.get(tn):
+                    self.rec_defs[tn] = 'struct %s { char _opaque; };' % tn
+                    self.rec_order.append(tn)
+                    self.rec_fields[tn] = []
+                    self.note('closure of the lambda at %s is opaque (calls go to stub %s)' % (where(lam), self.stubs[key] if isinstance(self.stubs[key], str) else self.stubs[key].get('cname')))
+                return None
+        self.auto_lambdas = getattr(self, 'auto_lambdas', 0) + 1
+        fl, ln = node_line(lam)
+        cn = 'lambda_%s_%d' % (mangle(os.path.basename(str(fl)).split('.')[0]), self.auto_lambdas)
+        return lower_ext.request_lambda_node(self, lam, cn)
+
+    def lambda_of_call_operator(self, d):
+        """LambdaExpr node whose closure's operator() is d (None for ordinary functors)"""
+        if not hasattr(self, '_lam_by_call'):
+            self._lam_by_call = {}
+            def walk(n):
+                if n.get('kind') == 'LambdaExpr' and n.get('inner'):
+                    rec = n['inner'][0]
+                    for c in rec.get('inner', []):
+                        if c.get('name') == 'operator()':
+                            if c.get('kind') == 'CXXMethodDecl':
+                                self._lam_by_call.setdefault(c['id'], n)
+                            for x in c.get('inner', []):
+                                if isinstance(x, dict) and x.get('kind') == 'CXXMethodDecl':
+                                    self._lam_by_call.setdefault(x['id'], n)
+                for x in n.get('inner', []):
+                    if isinstance(x, dict):
+                        walk(x)
+            walk(self.idx.root)
+        return self._lam_by_call.get(d['id'])
 
     def e_UserDefinedLiteral(self, e):
         return self.e_CallExpr(e)
@@ -1852,6 +1966,19 @@ class Lowerer:
         name = r.get('name')
         d = self.idx.definition(rid)
         q = self.idx.qname.get(d['id']) if d is not None else None
+        if name == 'operator()' and obj is not None:
+            lam = self.lambda_of_call_operator({'id': rid}) or (self.lambda_of_call_operator(d) if d is not None else None)
+            if lam is not None and d is None:
+                d = [c for c in lam['inner'][0].get('inner', []) if c.get('name') == 'operator()'][0]
+            if lam is not None:
+                # a call through a closure object: callbacks defined where a `closure:<regex>` stub key matches the
+                # lambda's source position are replaced by that stub; any other lambda is lowered on demand
+                loc = where(lam)
+                for key in self.stubs:
+                    if key.startswith('closure:') and re.search(key[len('closure:'):], loc):
+                        return self.stub_call(e, key, d, r, obj, args)
+                if d is not None and d['id'] not in self.fns and 'operator()' not in self.stubs:
+                    self.request_closure(lam)
         # assumed-contract stubs named in the spec
         for key in (q, name):
             if key and key in self.stubs:
@@ -1871,7 +1998,7 @@ class Lowerer:
         if not Index.has_body(d) and self.spec.get('record_external_calls'):
             return self.recording_stub(e, d, q, obj, args)
         if not Index.has_body(d):
-            raise Unsupported('call to %s which has no body in this TU (add a stub with an assumed contract) at %s' % (q, where(e)))
+            raise Unsupported('call to %s which has no body in this TU (add a stub with an assumed contract) at %s' % (q or name or r.get('type', {}).get('qualType'), where(e)))
         if d['id'] in self.idx.pattern:
             raise Unsupported('call to dependent template pattern %s' % q)
         f = self.request_fn(d)
@@ -2215,7 +2342,37 @@ class Lowerer:
         return 'free(%s)' % self.expr(e['inner'][0])
 
     def e_LambdaExpr(self, e):
-        raise Unsupported('lambda expression in value position at %s (name it as a target)' % where(e))
+        """a lambda used as a value (local closure object / argument): the closure struct initialised with its captures"""
+        f = self.request_closure(e)
+        if f is None:
+            return '((struct %s){0})' % mangle(e.get('type', {}).get('qualType', ''))
+        if getattr(self.cur, 'skeleton', False) and f.text is None and f in self.worklist:
+            try:
+                self.lower_now(f)      # a lambda outside the subset drops the statement that creates it
+            except Unsupported:
+                self.rec_defs.pop(f.closure_ty, None)
+                if f.closure_ty in self.rec_order:
+                    self.rec_order.remove(f.closure_ty)
+                raise
+        parts = []
+        rec = e['inner'][0]
+        fields = [c for c in rec['inner'] if c.get('kind') == 'FieldDecl']
+        inits = [c for c in e['inner'][1:] if c.get('kind') != 'CompoundStmt']
+        for fd, ini in zip(fields, inits):
+            ft = self.ty(fd['type'])
+            x = ini
+            while x.get('kind') in ('ImplicitCastExpr', 'CXXConstructExpr', 'MaterializeTemporaryExpr', 'ExprWithCleanups') and x.get('inner'):
+                x = x['inner'][0]
+            if x.get('kind') == 'CXXThisExpr':
+                parts.append('.__this = %s' % (self.cur.this_field if getattr(self.cur, 'this_field', None) else 'self'))
+                continue
+            name = x['referencedDecl']['name']
+            if ft.kind == 'ref':
+                parts.append('.%s = %s' % (name, self.addr(x)))
+            else:
+                parts.append('.%s = %s' % (name, self.expr(x)))
+        self.note('lambda at %s used as a value: closure object of type struct %s' % (where(e), f.closure_ty))
+        return '((struct %s){%s})' % (f.closure_ty, ', '.join(parts) or '0')
 
     def e_CXXStdInitializerListExpr(self, e):
         raise Unsupported('std::initializer_list at %s' % where(e))
